@@ -14,6 +14,7 @@
     and matching checksum) of what it decodes to". The instances for the executable SHA-256 of
     Lib/Sha256.v are closed theorems. *)
 From Coq Require Import List Bool NArith.
+From Coq Require String.
 Import ListNotations.
 From Ont Require Import Lib.Bytes Lib.Sha256 Gen.AddrConsts Model.Base58 Proofs.Base58.
 Local Open Scope N_scope.
@@ -155,16 +156,17 @@ Print Assumptions c22_sha256_from_to.
 (** Non-vacuity: the ONT contract address 00..0001 is an address; its encoding under the real
     SHA-256 is the well-known string; it decodes back; one extra leading '1', a changed
     character and a dropped character are rejected. *)
+Import String.
 Definition ont_addr : bytes := repeat 0 19 ++ [1].
-Definition ont_b58 : bytes := bytes_of_string "AFmseVrdL9f9oyCzZefL9tG6UbvhUMqNMV".
+Definition ont_b58 : bytes := bytes_of_string "AFmseVrdL9f9oyCzZefL9tG6UbvhUMqNMV"%string.
 
 Example c22_nonvacuous :
   addr_ok ont_addr /\
   to_base58 sha256 ont_addr = ont_b58 /\
   from_base58 sha256 ont_b58 = inr ont_addr /\
   from_base58 sha256 (49 :: ont_b58) = inl EVerify /\
-  from_base58 sha256 (bytes_of_string "AFmseVrdL9f9oyCzZefL9tG6UbvhUMqNMW") = inl EVerify /\
-  from_base58 sha256 (bytes_of_string "AFmseVrdL9f9oyCzZefL9tG6UbvhUMqNM") = inl EWrong /\
-  to_hex_string ont_addr = bytes_of_string "0100000000000000000000000000000000000000" /\
-  from_hex_string (bytes_of_string "0100000000000000000000000000000000000000") = inr ont_addr.
+  from_base58 sha256 (bytes_of_string "AFmseVrdL9f9oyCzZefL9tG6UbvhUMqNMW"%string) = inl EVerify /\
+  from_base58 sha256 (bytes_of_string "AFmseVrdL9f9oyCzZefL9tG6UbvhUMqNM"%string) = inl EWrong /\
+  to_hex_string ont_addr = bytes_of_string "0100000000000000000000000000000000000000"%string /\
+  from_hex_string (bytes_of_string "0100000000000000000000000000000000000000"%string) = inr ont_addr.
 Proof. vm_compute. repeat split; reflexivity. Qed.
